@@ -6,7 +6,7 @@
 
 package proxy
 
-//@ unit policies props=C05 filter=`proxy\.(First|Random|LeastConn|RoundRobin)\)\.Select$|hostByHashing$`
+//@ unit policies frames=on props=C05 filter=`proxy\.(First|Random|LeastConn|RoundRobin)\)\.Select$|hostByHashing$`
 //@ func (*UpstreamHost).Down
 //@   pure reads UpstreamHost
 //@ func (*UpstreamHost).Full
@@ -83,7 +83,7 @@ package proxy
 //@   loop 1 invariant [probed_from_zero] rnext(old(r.robin)) >= len(pool) ==> forall(k, 0, int(i), !pool[k].Available())
 //@   loop 1 decreases poolLen - i
 
-//@ unit joining_slash props=C04 filter=`proxy\.singleJoiningSlash$`
+//@ unit joining_slash frames=on props=C04 filter=`proxy\.singleJoiningSlash$`
 //@ extern strings.HasSuffix
 //@   pure
 //@   ensures len(suffix) == 1 ==> result == (len(s) >= 1 && s[len(s)-1] == suffix[0])
@@ -187,7 +187,7 @@ package proxy
 //@   loop 3 invariant forall(j, 0, #i, !has(outreq.Header, hopHeaders[j]))
 //@   loop 3 invariant [all_values_done] forall(a, 0, len(CV()), forall(b, 0, ntok(CV()[a]), named(CV()[a], b) ==> !has(outreq.Header, nm(CV()[a], b))))
 
-//@ unit header_rules props=C04 filter=`proxy\.mutateHeadersByRules$`
+//@ unit header_rules frames=on props=C04 filter=`proxy\.mutateHeadersByRules$`
 //@ spec canon(s string) string
 //@ spec stripPlus(s string) string
 //@ spec stripMinus(s string) string
@@ -225,7 +225,7 @@ package proxy
 //@   loop 3 invariant forallT(k, string, !touched(k) ==> kept(k)) && forallT(k, string, has(rules, k) == old(has(rules, k)) && rules[k] == old(rules[k]))
 //@   loop 4 invariant forallT(k, string, !touched(k) ==> kept(k)) && forallT(k, string, has(rules, k) == old(has(rules, k)) && rules[k] == old(rules[k])) && has(replacements, ruleField)
 
-//@ unit upstream_select props=C05 filter=`proxy\.staticUpstream\)\.Select$`
+//@ unit upstream_select frames=on props=C05 filter=`proxy\.staticUpstream\)\.Select$`
 //@ func (*UpstreamHost).Available
 //@   pure reads UpstreamHost.Unhealthy, UpstreamHost.Fails, UpstreamHost.Conns, UpstreamHost.MaxConns, UpstreamHost.CheckDown
 //@   requires uh != nil
